@@ -685,6 +685,14 @@ def check_extreme_first(h: Harness, tmp: str):
             if rows != sum(flags):
                 h.fail("CSVSearchRecorder.register", "column-not-faithful", f"{desc}: {sum(flags)} registrations were flagged best, the file has {rows} rows",
                        [repr(first), minimize])
+            if first != first:
+                # NaN first: a later row is an improvement only if its value is strictly better than EVERY earlier one, and no value
+                # compares better than NaN -- the log opens with the NaN row and has no other
+                late = [j for j in range(1, len(flags)) if flags[j]]
+                if late:
+                    h.fail("SingleObjectiveProgressTracker.evaluate", "row-flagged-best-is-not-a-strict-improvement",
+                           f"{desc}: registrations {late} were announced (and logged) as new best although none of them compares strictly better than the "
+                           f"first value (NaN): is_best flags {flags}", [repr(first), minimize])
             if first == first:   # not NaN: comparisons are meaningful
                 aggs = [(BIG if (v > 0) != minimize else -BIG) if abs(v) == inf else int(-v if minimize else v) for v in vals]
                 h.holds("SingleObjectiveProgressTracker.evaluate", "row-flagged-best-is-not-a-strict-improvement", ["prop_flags", aggs, flags],
